@@ -1,20 +1,18 @@
 /-
-  XotModel.Lemmas.ScopeSerialise — when `deduplicate_namespaces` keeps every name writable.
+  XotModel.Lemmas.ScopeSerialise — the serialiser's name checks as membership in the top frame.
 
-  Under `NoShadow` (no prefix is declared twice on any root-to-node path, `xml` is not declared,
-  only elements carry declarations) every name that `to_string` could write before the call can
-  still be written after it.  The proof follows the recursive forms `wr` (serialiser) and `rbWalk`
-  (dedup) and uses the DeduplicateTracker only through two facts: its default-namespace column
-  never changes, and an attribute in namespace `ns` below an un-redeclared `xmlns="ns"` makes
-  `is_safe_to_remove(ns)` false from then on.
+  `element_fullname` / `attribute_fullname` succeed iff the name is in no namespace, in the XML
+  namespace, or some (non-empty, for attributes) prefix of the top frame is bound to its namespace
+  (`elementFullname_ok`, `attributeFullname_ok`); `unresolved_namespaces` never reports the
+  no-namespace id or the XML namespace.
 -/
-import XotModel.Lemmas.ScopeRebuild
+import XotModel.Lemmas.ScopeWalk
 
 namespace XotModel
 
 /-! ### Name checks as membership in the top frame -/
 
-/-- Some prefix is bound to `ns` (`is_namespace_known`). -/
+/-- Some prefix is bound to `ns`. -/
 def knownIn (l : List (Nat × Nat)) (ns : Nat) : Bool := l.any (fun kv => kv.2 == ns)
 
 /-- Some non-empty prefix is bound to `ns` (what an attribute name needs). -/
@@ -164,234 +162,6 @@ theorem unresolvedRecList_real (env : Env) (ns : Nat) : ∀ (ks : List Tree) (to
     rcases h with h | h
     · exact unresolvedRec_real env ns k top h
     · exact unresolvedRecList_real env ns ks top h
-end
-
-/-! ### The DeduplicateTracker: defaults never change, flags only get set -/
-
-inductive TrLe : Tracker → Tracker → Prop
-  | nil : TrLe [] []
-  | cons {e e' : TrackerEntry} {tr tr' : Tracker} :
-      e.defaultNamespace = e'.defaultNamespace →
-      (e.inUseByAttribute = true → e'.inUseByAttribute = true) →
-      TrLe tr tr' → TrLe (e :: tr) (e' :: tr')
-
-theorem TrLe.refl : ∀ tr : Tracker, TrLe tr tr
-  | [] => .nil
-  | _ :: tr => .cons rfl id (TrLe.refl tr)
-
-theorem TrLe.trans {a b c : Tracker} (h1 : TrLe a b) (h2 : TrLe b c) : TrLe a c := by
-  induction h1 generalizing c with
-  | nil => exact h2
-  | cons hd hf _ ih =>
-    cases h2 with
-    | cons hd2 hf2 h2' => exact .cons (hd.trans hd2) (fun h => hf2 (hf h)) (ih h2')
-
-theorem TrLe.tail {e : TrackerEntry} {tr tr2 : Tracker} (h : TrLe (e :: tr) tr2) :
-    TrLe tr tr2.tail ∧ ∃ e', tr2 = e' :: tr2.tail ∧ e.defaultNamespace = e'.defaultNamespace := by
-  cases h with
-  | cons hd _ h' => exact ⟨h', _, rfl, hd⟩
-
-theorem TrLe.attributeName (ns : Nat) : ∀ tr : Tracker, TrLe tr (trackerAttributeName ns tr)
-  | [] => .nil
-  | e :: rest => by
-    unfold trackerAttributeName
-    split
-    · exact .cons rfl (fun _ => rfl) (TrLe.refl rest)
-    · exact .cons rfl id (TrLe.attributeName ns rest)
-
-theorem TrLe.foldAttributes (env : Env) (names : List Nat) : ∀ tr : Tracker,
-    TrLe tr (names.foldl (fun tr n => trackerAttributeName (env.nsOfName n) tr) tr) := by
-  induction names with
-  | nil => intro tr; exact TrLe.refl tr
-  | cons n rest ih => intro tr; exact (TrLe.attributeName _ tr).trans (ih _)
-
-/-- Flags only get set: once `is_safe_to_remove(ns)` is false it stays false. -/
-theorem TrLe.safe {ns : Nat} {tr tr' : Tracker} (h : TrLe tr tr')
-    (hs : trackerIsSafeToRemove ns tr = false) : trackerIsSafeToRemove ns tr' = false := by
-  induction h with
-  | nil => exact hs
-  | cons hd hf _ ih =>
-    rename_i e e' t t'
-    unfold trackerIsSafeToRemove at hs ⊢
-    rw [← hd]
-    split
-    · rename_i hm
-      simp only [hm, ↓reduceIte, Bool.not_eq_eq_eq_not, Bool.not_false] at hs
-      simp [hf hs]
-    · rename_i hm
-      simp only [hm] at hs
-      exact ih hs
-
-theorem TrLe.hasDefault {ns : Nat} {tr tr' : Tracker} (h : TrLe tr tr')
-    (hm : ∃ e ∈ tr, e.defaultNamespace = some ns) : ∃ e ∈ tr', e.defaultNamespace = some ns := by
-  induction h with
-  | nil => exact hm
-  | cons hd _ _ ih =>
-    obtain ⟨e0, he0, hd0⟩ := hm
-    simp only [List.mem_cons] at he0
-    rcases he0 with rfl | he0
-    · exact ⟨_, by simp, hd ▸ hd0⟩
-    · obtain ⟨e1, he1, hd1⟩ := ih ⟨e0, he0, hd0⟩
-      exact ⟨e1, by simp [he1], hd1⟩
-
-/-- An attribute in namespace `ns` marks the nearest `xmlns="ns"` entry. -/
-theorem safe_attributeName_same (ns : Nat) : ∀ tr : Tracker,
-    (∃ e ∈ tr, e.defaultNamespace = some ns) →
-    trackerIsSafeToRemove ns (trackerAttributeName ns tr) = false
-  | [], h => by simp at h
-  | e :: rest, h => by
-    unfold trackerAttributeName
-    split
-    · rename_i hm
-      simp [trackerIsSafeToRemove, hm]
-    · rename_i hm
-      obtain ⟨e0, he0, hd0⟩ := h
-      simp only [List.mem_cons] at he0
-      rcases he0 with rfl | he0
-      · simp [hd0] at hm
-      · unfold trackerIsSafeToRemove
-        simp only [hm]
-        exact safe_attributeName_same ns rest ⟨e0, he0, hd0⟩
-
-theorem safe_foldAttributes (env : Env) (ns : Nat) (names : List Nat) : ∀ tr : Tracker,
-    (∃ e ∈ tr, e.defaultNamespace = some ns) → (∃ n ∈ names, env.nsOfName n = ns) →
-    trackerIsSafeToRemove ns
-      (names.foldl (fun tr n => trackerAttributeName (env.nsOfName n) tr) tr) = false := by
-  induction names with
-  | nil => intro tr _ h; simp at h
-  | cons n rest ih =>
-    intro tr hd hn
-    simp only [List.foldl_cons]
-    by_cases hns : env.nsOfName n = ns
-    · exact (TrLe.foldAttributes env rest _).safe (hns ▸ safe_attributeName_same _ tr (hns ▸ hd))
-    · obtain ⟨n0, hn0, hns0⟩ := hn
-      simp only [List.mem_cons] at hn0
-      rcases hn0 with rfl | hn0
-      · exact absurd hns0 hns
-      · exact ih _ ((TrLe.attributeName _ tr).hasDefault hd) ⟨n0, hn0, hns0⟩
-
-theorem safe_cons_of_ne {ns : Nat} {e : TrackerEntry} {tr : Tracker}
-    (h : e.defaultNamespace ≠ some ns) :
-    trackerIsSafeToRemove ns (e :: tr) = trackerIsSafeToRemove ns tr := by
-  have : (e.defaultNamespace == some ns) = false := by simpa using h
-  simp [trackerIsSafeToRemove, this]
-
-/-! ### The guard and the tracker along `rbWalk` -/
-
-/-- No prefix is declared twice on any root-to-node path (nor is any prefix of `above`), and
-    only elements carry declarations. -/
-def noShadow (above : List Nat) : Tree → Prop
-  | .node v ks =>
-    match v with
-    | .element _ =>
-      ((Tree.node v ks).nsDecls.map Prod.fst).Nodup ∧
-      (∀ p ∈ (Tree.node v ks).nsDecls.map Prod.fst, p ∉ above) ∧
-      noShadowList (above ++ (Tree.node v ks).nsDecls.map Prod.fst) ks
-    | _ => (Tree.node v ks).nsDecls = [] ∧ noShadowList above ks
-where
-  noShadowList (above : List Nat) : List Tree → Prop
-    | [] => True
-    | k :: ks => noShadow above k ∧ noShadowList above ks
-
-/-- Some element of the subtree has an attribute whose name is in namespace `ns`. -/
-def hasAttrNs (env : Env) (ns : Nat) : Tree → Bool
-  | .node v ks =>
-    match v with
-    | .element _ =>
-      ((Tree.node v ks).attrs.map (·.1)).any (fun n => env.nsOfName n == ns) || hasAttrNsList env ns ks
-    | _ => hasAttrNsList env ns ks
-where
-  hasAttrNsList (env : Env) (ns : Nat) : List Tree → Bool
-    | [] => false
-    | k :: ks => hasAttrNs env ns k || hasAttrNsList env ns ks
-
-mutual
-theorem rb_le (env : Env) : ∀ (x : Tree) (top : List (Nat × Nat)) (tr : Tracker),
-    TrLe tr (rbWalk env top x tr).1
-  | .node v ks, top, tr => by
-    cases v with
-    | element name =>
-      simp only [rbWalk]
-      have h1 : TrLe (_ :: tr) (trackerPush env tr (.node (.element name) ks)) :=
-        TrLe.foldAttributes env _ _
-      exact (h1.trans (rb_le_list env ks _ _)).tail.1
-    | document => simpa [rbWalk] using rb_le_list env ks top tr
-    | text s => simpa [rbWalk] using rb_le_list env ks top tr
-    | pi a b => simpa [rbWalk] using rb_le_list env ks top tr
-    | comment s => simpa [rbWalk] using rb_le_list env ks top tr
-    | «attribute» a b => simpa [rbWalk] using rb_le_list env ks top tr
-    | «namespace» a b => simpa [rbWalk] using rb_le_list env ks top tr
-theorem rb_le_list (env : Env) : ∀ (ks : List Tree) (top : List (Nat × Nat)) (tr : Tracker),
-    TrLe tr (rbWalk.rbList env top ks tr).1
-  | [], top, tr => by simpa [rbWalk.rbList] using TrLe.refl tr
-  | k :: ks, top, tr => by
-    simp only [rbWalk.rbList]
-    exact (rb_le env k top tr).trans (rb_le_list env ks top _)
-end
-
-theorem lookup_none_of_not_mem_keys {l : List (Nat × Nat)} {p : Nat}
-    (h : p ∉ l.map Prod.fst) : l.lookup p = none := by
-  rw [List.lookup_eq_none_iff]
-  intro kv hkv
-  simp only [bne_iff_ne, ne_eq]
-  intro hp
-  exact h (List.mem_map.2 ⟨kv, hkv, hp.symm⟩)
-
-mutual
-/-- Below an `xmlns="ns"` that nothing redeclares, an attribute in `ns` anywhere in the subtree
-    leaves `is_safe_to_remove(ns)` false after the subtree has been walked. -/
-theorem rb_flag (env : Env) (ns : Nat) : ∀ (x : Tree) (top : List (Nat × Nat)) (tr : Tracker)
-    (above : List Nat), Env.emptyPrefix ∈ above → noShadow above x →
-    (∃ e ∈ tr, e.defaultNamespace = some ns) → hasAttrNs env ns x = true →
-    trackerIsSafeToRemove ns (rbWalk env top x tr).1 = false
-  | .node v ks, top, tr, above, h0, hg, hd, ha => by
-    cases v with
-    | element name =>
-      simp only [noShadow] at hg
-      obtain ⟨_, hdis, hkids⟩ := hg
-      simp only [hasAttrNs, Bool.or_eq_true] at ha
-      simp only [rbWalk]
-      have hnone : (Tree.node (.element name) ks).getNamespace Env.emptyPrefix = none :=
-        lookup_none_of_not_mem_keys (fun hm => hdis _ hm h0)
-      have hpush : TrLe ((⟨(Tree.node (.element name) ks).getNamespace Env.emptyPrefix, false⟩ : TrackerEntry) :: tr) (trackerPush env tr (.node (.element name) ks)) :=
-        TrLe.foldAttributes env _ _
-      have hd1 : ∃ e ∈ ((⟨(Tree.node (.element name) ks).getNamespace Env.emptyPrefix, false⟩ : TrackerEntry) :: tr), e.defaultNamespace = some ns := by
-        obtain ⟨e, he, hde⟩ := hd
-        exact ⟨e, by simp [he], hde⟩
-      have hkidsLe := rb_le_list env ks (pushTop top (Tree.node (.element name) ks).nsDecls)
-        (trackerPush env tr (.node (.element name) ks))
-      have hsafe2 : trackerIsSafeToRemove ns
-          (rbWalk.rbList env (pushTop top (Tree.node (.element name) ks).nsDecls) ks
-            (trackerPush env tr (.node (.element name) ks))).1 = false := by
-        rcases ha with ha | ha
-        · apply hkidsLe.safe
-          apply safe_foldAttributes env ns _ _ hd1
-          simp only [List.any_eq_true, beq_iff_eq] at ha
-          exact ha
-        · exact rb_flag_list env ns ks _ _ _ (by simp [h0]) hkids (hpush.hasDefault hd1) ha
-      obtain ⟨_, e', he', hde'⟩ := (hpush.trans hkidsLe).tail
-      rw [he'] at hsafe2
-      rw [safe_cons_of_ne] at hsafe2
-      · exact hsafe2
-      · rw [← hde', hnone]; simp
-    | document => simp only [noShadow] at hg; simpa [rbWalk] using rb_flag_list env ns ks top tr above h0 hg.2 hd (by simpa [hasAttrNs] using ha)
-    | text s => simp only [noShadow] at hg; simpa [rbWalk] using rb_flag_list env ns ks top tr above h0 hg.2 hd (by simpa [hasAttrNs] using ha)
-    | pi a b => simp only [noShadow] at hg; simpa [rbWalk] using rb_flag_list env ns ks top tr above h0 hg.2 hd (by simpa [hasAttrNs] using ha)
-    | comment s => simp only [noShadow] at hg; simpa [rbWalk] using rb_flag_list env ns ks top tr above h0 hg.2 hd (by simpa [hasAttrNs] using ha)
-    | «attribute» a b => simp only [noShadow] at hg; simpa [rbWalk] using rb_flag_list env ns ks top tr above h0 hg.2 hd (by simpa [hasAttrNs] using ha)
-    | «namespace» a b => simp only [noShadow] at hg; simpa [rbWalk] using rb_flag_list env ns ks top tr above h0 hg.2 hd (by simpa [hasAttrNs] using ha)
-theorem rb_flag_list (env : Env) (ns : Nat) : ∀ (ks : List Tree) (top : List (Nat × Nat)) (tr : Tracker)
-    (above : List Nat), Env.emptyPrefix ∈ above → noShadow.noShadowList above ks →
-    (∃ e ∈ tr, e.defaultNamespace = some ns) → hasAttrNs.hasAttrNsList env ns ks = true →
-    trackerIsSafeToRemove ns (rbWalk.rbList env top ks tr).1 = false
-  | [], top, tr, above, _, _, _, ha => by simp [hasAttrNs.hasAttrNsList] at ha
-  | k :: ks, top, tr, above, h0, hg, hd, ha => by
-    simp only [noShadow.noShadowList] at hg
-    simp only [hasAttrNs.hasAttrNsList, Bool.or_eq_true] at ha
-    simp only [rbWalk.rbList]
-    rcases ha with ha | ha
-    · exact (rb_le_list env ks top _).safe (rb_flag env ns k top tr above h0 hg.1 hd ha)
-    · exact rb_flag_list env ns ks top _ above h0 hg.2 ((rb_le env k top tr).hasDefault hd) ha
 end
 
 end XotModel
